@@ -47,7 +47,7 @@ generic = z3.Function("generic_result", I, I, I, I, I, B)   # generic_result(opc
 
 PYLONG_SHIFT = 30
 OPCODES = {"pow": 1, "ipow": 1, "lshift": 2, "add": 3, "sub": 4, "mul": 5, "floordiv": 6, "mod": 7, "and": 8, "or": 9, "xor": 10,
-           "rshift": 11, "truediv": 12, "richcmp": 13, "getitem": 14, "index": 15, "long": 16, "setitem": 17, "delitem": 18, "methodcall": 19, "list_append": 20}
+           "rshift": 11, "truediv": 12, "richcmp": 13, "getitem": 14, "index": 15, "long": 16, "setitem": 17, "delitem": 18, "methodcall": 19, "list_append": 20, "contains": 21}
 
 
 PYNUMBER = {"Add": "add", "Subtract": "sub", "Multiply": "mul", "FloorDivide": "floordiv", "Remainder": "mod", "And": "and", "Or": "or",
@@ -415,6 +415,22 @@ class CExecPyObj(CExecL3):
             st.mem[self.gkey("liststores", o)] = st.mem.get("liststores[%s]" % o, z3.IntVal(0)) + 1
             self.assumptions.add("PyList_GET_ITEM / PyList_SET_ITEM read / overwrite slot ob_item[i] (0 <= i < size is an obligation)")
             return None
+        if name in ("PySequence_Contains", "__Pyx_PySequence_ContainsTF"):
+            # PySequence_Contains(seq, item) -> 1 / 0 / -1; the Cython wrapper takes (item, seq, eq) and maps the answer through eq
+            wrapped = name != "PySequence_Contains"
+            a0, a1 = self.oid(self.ev(st, argn[0])), self.oid(self.ev(st, argn[1]))
+            seq, item = (a1, a0) if wrapped else (a0, a1)
+            r = self.fresh("contains")
+            st.path.append(z3.And(r >= -1, r <= 1, generic(z3.IntVal(OPCODES["contains"]), seq, item, z3.IntVal(0), r)))
+            e2 = self.fresh("err_after_contains")
+            st.path.append(z3.Implies(r >= 0, e2 == st.err))
+            st.path.append(z3.Implies(r < 0, e2 != 0))
+            st.err = e2
+            self.assumptions.add("PySequence_Contains(seq, item) is CPython's own membership test (1 / 0, or -1 with an exception)")
+            if wrapped:
+                eq = self.ev(st, argn[2])
+                return CV(ty, z3.If(r < 0, r, z3.If((r == 1) == (eq.t == 2), z3.IntVal(1), z3.IntVal(0))))
+            return CV(ty, r)
         if name == "PyList_Append":
             o = self.oid(self.ev(st, argn[0]))
             v = self.oid(self.ev(st, argn[1]))
